@@ -369,3 +369,77 @@ Example C09_ex_valid_corner :
   icmp6_is_checksum_valid LE [255;189;255;255;0;0;0;0] z z = true /\
   icmp6_valid_spec z z [255;189;255;255;0;0;0;0] = true.
 Proof. vm_compute. repeat split; reflexivity. Qed.
+
+(* ==== round3 smalls begin ==== *)
+(* Round 3 (audit clause d): "for all accumulator states, including carries out of 32/64 bits" for
+   EVERY helper call and for the final fold -- C09_any_start64/32 above is about one add_slice
+   call only.  Lemmas: Checksum/AnyStart.v (compositions of Checksum/Proofs.v; no new model). *)
+From EP Require Import Checksum.AnyStart.
+
+(* any sequence of add_2bytes / add_4bytes / add_8bytes / add_16bytes / add_slice calls (all pieces
+   but the last of even length) from ANY accumulator value: the accumulator type is not
+   overflowed (the end-around carry of `sum + carry` included), the result is congruent mod 65535
+   to start + word sum, and it is 0 only for a zero start and all-zero words *)
+Theorem C09_pieces_any_start64 : forall e s0 ps,
+  s0 < M64 -> Forall piece_ok ps -> pieces_aligned ps ->
+  let s := sum_pieces64 e s0 ps in
+  s < M64 /\ s ==m s0 + w e * sum_be16 (pieces_bytes ps) /\
+  (s = 0 <-> s0 = 0 /\ sum_be16 (pieces_bytes ps) = 0).
+Proof. exact pieces_any_start64. Qed.
+Print Assumptions C09_pieces_any_start64.
+
+Theorem C09_pieces_any_start32 : forall e s0 ps,
+  s0 < M32 -> Forall piece_ok ps -> pieces_aligned ps ->
+  let s := sum_pieces32 e s0 ps in
+  s < M32 /\ s ==m s0 + w e * sum_be16 (pieces_bytes ps) /\
+  (s = 0 <-> s0 = 0 /\ sum_be16 (pieces_bytes ps) = 0).
+Proof. exact pieces_any_start32. Qed.
+Print Assumptions C09_pieces_any_start32.
+
+(* ones_complement / ones_complement_with_no_zero of ANY accumulator value: the complement of the
+   RFC fold (closed form fold16: 0 stays 0, everything else goes to its representative in
+   1..65535); the third conjunct is the same fact in the vocabulary of C09_any_start *)
+Theorem C09_fold_any64 : forall s, s < M64 ->
+  U64.ones_complement s = 65535 - fold16 s /\
+  U64.ones_complement_with_no_zero s = (if fold16 s =? 65535 then 65535 else 65535 - fold16 s) /\
+  (exists u, U64.ones_complement s = 65535 - u /\ u <= 65535 /\ u ==m s /\ (u = 0 <-> s = 0)).
+Proof. exact fold_any64. Qed.
+Print Assumptions C09_fold_any64.
+
+Theorem C09_fold_any32 : forall s, s < M32 ->
+  U32.ones_complement s = 65535 - fold16 s /\
+  U32.ones_complement_with_no_zero s = (if fold16 s =? 65535 then 65535 else 65535 - fold16 s) /\
+  (exists u, U32.ones_complement s = 65535 - u /\ u <= 65535 /\ u ==m s /\ (u = 0 <-> s = 0)).
+Proof. exact fold_any32. Qed.
+Print Assumptions C09_fold_any32.
+
+(* both together, as an equation: the big-endian checksum obtained from ANY start value s0 is the
+   RFC complement-of-fold of (s0, byte swapped on a little-endian host: w LE = 256, w BE = 1)
+   + (big-endian word sum of the bytes); s0 = 0 is C09_pieces64/32 *)
+Theorem C09_checksum_any_start64 : forall e s0 ps,
+  s0 < M64 -> Forall piece_ok ps -> pieces_aligned ps ->
+  to_be16v e (U64.ones_complement (sum_pieces64 e s0 ps))
+    = 65535 - fold16 (w e * s0 + sum_be16 (pieces_bytes ps)).
+Proof. exact checksum_any_start64. Qed.
+Print Assumptions C09_checksum_any_start64.
+
+Theorem C09_checksum_any_start32 : forall e s0 ps,
+  s0 < M32 -> Forall piece_ok ps -> pieces_aligned ps ->
+  to_be16v e (U32.ones_complement (sum_pieces32 e s0 ps))
+    = 65535 - fold16 (w e * s0 + sum_be16 (pieces_bytes ps)).
+Proof. exact checksum_any_start32. Qed.
+Print Assumptions C09_checksum_any_start32.
+
+(* non-vacuity: start values at the top of the accumulator range, so that the first add carries
+   out of 64 / 32 bits; mixed pieces (hypotheses: C09_ex_hyp above) *)
+Example C09_ex_pieces_any_start :
+  18446744073709551615 < M64 /\ 4294967295 < M32 /\
+  sum_pieces64 LE 18446744073709551615 [P2 0 1; P4 242 3 244 245; PSlice [246; 247; 9]] = 4126473457 /\
+  sum_pieces32 LE 4294967295 [P2 0 1; P4 242 3 244 245; PSlice [246; 247; 9]] = 4126473457 /\
+  to_be16v LE (U64.ones_complement (sum_pieces64 LE 18446744073709551615 [P2 0 1; P4 242 3 244 245; PSlice [246; 247; 9]]))
+    = 65535 - fold16 (256 * 18446744073709551615 + sum_be16 [0; 1; 242; 3; 244; 245; 246; 247; 9]) /\
+  65535 - fold16 (256 * 18446744073709551615 + sum_be16 [0; 1; 242; 3; 244; 245; 246; 247; 9]) = 6413 /\
+  U64.ones_complement 18446744073709551615 = 0 /\ U64.ones_complement_with_no_zero 18446744073709551615 = 65535 /\
+  U32.ones_complement 4294901761 = 65534.
+Proof. repeat split; vm_compute; reflexivity. Qed.
+(* ==== round3 smalls end ==== *)
